@@ -1,8 +1,261 @@
-import Arrai.C04.Model
+/-
+  C04 — the join family, nest/unnest and rank obey their relational definitions.
+
+  Property theorems only (helper lemmas: Arrai/C04/Lemmas*.lean).
+  Part 1: the specification — the eight operators on values do not depend on how rows are written, the
+          seven other operators are projections of `<&>`, nest is lossless, unnest inverts nest.
+  Part 2: the generic path (RelationAttrs + GenericJoin + combine) refines the specification.
+  Part 3: `createMode` is total on the eight partitions and selects a strategy that computes the matched pairs.
+  Part 4: the positional path (`Relation.Join` with its short-cuts and re-sugaring) refines the specification;
+          both paths agree; `Joiner` refines the specification for every representation of the operands.
+  Part 5: nest / unnest (`Reduce`) and rank refine their specifications.
+-/
+import Arrai.C04.LemmasNest
 
 namespace Arrai.C04.Theorems
-open Arrai.C04
+open Arrai.C04 Arrai.C04.Spec Arrai.C04.Impl
 
-theorem placeholder : True := trivial
+/-! ### Part 1 — the specification -/
+
+/-- the specified join of two values depends only on the rows the values denote -/
+theorem join_welldefined (op : JoinOp) (A B : List Tup) :
+    Spec.join op (denRows A) (denRows B) = denRows (joinRows op A B) := join_denRows op A B
+
+/-- `<->, -&-, ---, -&>, <&-, -->, <--` are the projections of `<&>` onto the attribute classes they keep,
+for any headings (any of left-only, common, right-only may be empty) -/
+theorem projections_of_join (op : JoinOp) (hA hB : Names) (A B : List Tup)
+    (uA : Uniform hA A) (uB : Uniform hB B) :
+    denRows (joinRows op A B) = denRows ((joinRows .join A B).map (restrict (keep op hA hB))) :=
+  denRows_congr (projection_of_join op hA hB A B uA uB)
+
+/-- `<&>` is exactly the set of merged tuples `t ∪ u` of agreeing pairs -/
+theorem join_is_merge (A B : List Tup) (x : Tup) :
+    x ∈ joinRows .join A B ↔ ∃ t ∈ A, ∃ u ∈ B,
+      (∀ n v w, get n t = some v → get n u = some w → v = w) ∧ x = joined .join t u := by
+  rw [mem_joinRows]
+  constructor
+  · rintro ⟨t, ht, u, hu, ha, e⟩; exact ⟨t, ht, u, hu, (agree_iff t u).1 ha, e⟩
+  · rintro ⟨t, ht, u, hu, ha, e⟩; exact ⟨t, ht, u, hu, (agree_iff t u).2 ha, e⟩
+
+/-- the merged tuple carries every attribute of both tuples -/
+theorem joined_join_is_union (t u : Tup) (n : String) :
+    get n (joined .join t u) = if has t n then get n t else get n u := by
+  rw [joined_join_eqv_merge t u n, get_merge]
+
+/-- nest loses no row: every row's nested part is a member of the group of its own key -/
+theorem nest_lossless_covers (R : List Tup) (attrs : Names) (t : Tup) (ht : t ∈ R) :
+    canonAttrs (restrict attrs.contains t) ∈ rowsOf (nestedOf R attrs t) := nest_covers R attrs t ht
+
+/-- nest invents no row: every member of a group is the nested part of a row of `R` with that key -/
+theorem nest_lossless_sound (R : List Tup) (attrs : Names) (t s : Tup)
+    (hs : s ∈ rowsOf (nestedOf R attrs t)) :
+    ∃ u ∈ R, keyOf attrs u = keyOf attrs t ∧ s = canonAttrs (restrict attrs.contains u) :=
+  nest_sound R attrs t s hs
+
+/-- the groups are disjoint on the key: rows with the same key get the same nested relation -/
+theorem nest_lossless_disjoint (R : List Tup) (attrs : Names) (t t' : Tup)
+    (h : keyOf attrs t = keyOf attrs t') : nestedOf R attrs t = nestedOf R attrs t' :=
+  nest_key_functional R attrs t t' h
+
+/-- unnest inverts nest (for any `attrs`, empty or the whole heading included), provided the new
+attribute does not clash with an attribute that stays outside -/
+theorem unnest_nest (R : List Tup) (attrs : Names) (n : String)
+    (hn : ∀ t ∈ R, attrs.contains n = false → get n t = none) :
+    Spec.unnest (Spec.nest (denRows R) attrs n) n = denRows R := by
+  rw [nest_denRows, unnest_denRows]
+  exact denRows_congr (unnest_nest_rows R attrs n hn)
+
+example : ∃ R attrs n, R ≠ [] ∧ (∀ t ∈ R, attrs.contains n = false → get n t = none) ∧
+    Spec.unnest (Spec.nest (denRows R) attrs n) n = denRows R :=
+  ⟨[[("a", .num 1), ("b", .num 2)], [("a", .num 1), ("b", .num 3)]], ["b"], "n", by simp,
+    by intro t ht _; simp at ht; rcases ht with rfl | rfl <;> rfl,
+    unnest_nest _ _ _ (by intro t ht _; simp at ht; rcases ht with rfl | rfl <;> rfl)⟩
+
+/-! ### Part 2 — the generic path -/
+
+/-- `SetBuilder` (as modelled by `ofMembers`) denotes exactly the set of the canonical tuples added to it -/
+theorem setBuilder_faithful (xs : List V) (h : ∀ x ∈ xs, CanonT x) : den (ofMembers xs) = V.mkSet xs :=
+  den_ofMembers xs h
+
+/-- RelationAttrs + GenericJoin + the eight combine closures: for well-formed operands of any representation
+(relations, strings/arrays/bytes/dicts as binary relations, `true`, generic sets of tuples) the result
+denotes the specified join; no `nil` tuple is ever added -/
+theorem generic_path_refines (op : JoinOp) (a b : Rep) (aN bN : Names) (wa : RepWF a) (wb : RepWF b)
+    (ha : relationAttrs a = some aN) (hb : relationAttrs b = some bN) :
+    ∃ r, genericPath op a b = .ok r ∧ den r = Spec.join op (den a) (den b) :=
+  genericPath_refines op a b aN bN wa wb ha hb
+
+/-! ### Part 3 — createMode -/
+
+/-- the Boolean table: for every operator and every emptiness pattern of (left-only, common, right-only)
+`createMode` hits neither of its panics and selects a strategy whose side condition holds -/
+theorem createMode_table (op : JoinOp) (ex ey ez : Bool) :
+    ∃ m, modeB (flagsOf op ex ez) ex ey ez = some m ∧
+      sideB (strategyOf m) (flagsOf op ex ez) ex ey ez = true := modeB_total op ex ey ez
+
+/-- `createMode`, on the projectors `Relation.Join` derives from the partition of any of the eight operators
+for any two headings, never panics and selects a strategy that computes the matched pairs -/
+theorem createMode_total (A1 A2 : Names) (op : JoinOp) :
+    ∃ m, createMode ((intersect A1 A2).map (idxOf A1)) ((intersect A1 A2).map (idxOf A2))
+        ((partitionNames op A1 A2 (intersect A1 A2)).1.map (idxOf A1))
+        ((partitionNames op A1 A2 (intersect A1 A2)).2.map (idxOf A2)) = .ok m ∧
+      SideOK (strategyOf m) ((intersect A1 A2).map (idxOf A1)) ((intersect A1 A2).map (idxOf A2))
+        ((partitionNames op A1 A2 (intersect A1 A2)).1.map (idxOf A1))
+        ((partitionNames op A1 A2 (intersect A1 A2)).2.map (idxOf A2)) :=
+  createMode_total_names A1 A2 op
+
+/-- under the side condition of the selected strategy, `positionalRelation.Join` returns exactly the
+projected matched pairs -/
+theorem strategies_compute_matched (r r2 : List Row) (lk rk lo ro : Proj) (m : Mode)
+    (hm : createMode lk rk lo ro = .ok m) (side : SideOK (strategyOf m) lk rk lo ro)
+    (h1 : r ≠ []) (h2 : r2 ≠ [])
+    (hw1 : ∀ v ∈ r, ∀ v' ∈ r, v.length = v'.length) (hw2 : ∀ v ∈ r2, ∀ v' ∈ r2, v.length = v'.length) :
+    ∃ rows, posJoin r r2 lk rk lo ro = .ok rows ∧ ∀ x, x ∈ rows ↔ Matched r r2 lk rk lo ro x :=
+  posJoin_mem r r2 lk rk lo ro m hm side h1 h2 hw1 hw2
+
+/-! ### Part 4 — the positional path and Joiner -/
+
+/-- `Relation.Join` (getIndices, compose, createMode, the five strategies, the empty / literal-true short-cuts
+and the re-sugaring branch as repaired) refines the specification for every operator and all headings,
+in any column order -/
+theorem positional_path_refines (op : JoinOp) (r1 r2 : Relation) (w1 : RelWF r1) (w2 : RelWF r2) :
+    ∃ res, relationJoin r1 r2 (intersect r1.attrs r2.attrs)
+        (partitionNames op r1.attrs r2.attrs (intersect r1.attrs r2.attrs)).1
+        (partitionNames op r1.attrs r2.attrs (intersect r1.attrs r2.attrs)).2 = .ok res ∧
+      den res = Spec.join op (den (.relation r1)) (den (.relation r2)) :=
+  relationJoin_refines op r1 r2 w1 w2
+
+/-- the positional and the generic path agree whenever both apply -/
+theorem join_paths_agree (op : JoinOp) (r1 r2 : Relation) (w1 : RelWF r1) (w2 : RelWF r2) :
+    ∃ r r', relationJoin r1 r2 (intersect r1.attrs r2.attrs)
+        (partitionNames op r1.attrs r2.attrs (intersect r1.attrs r2.attrs)).1
+        (partitionNames op r1.attrs r2.attrs (intersect r1.attrs r2.attrs)).2 = .ok r ∧
+      genericPath op (.relation r1) (.relation r2) = .ok r' ∧ den r = den r' := by
+  obtain ⟨r, hr, e⟩ := relationJoin_refines op r1 r2 w1 w2
+  obtain ⟨r', hr', e'⟩ := genericPath_refines op (.relation r1) (.relation r2) r1.attrs r2.attrs w1 w2 rfl rfl
+  exact ⟨r, r', hr, hr', by rw [e, e']⟩
+
+/-- `A op B` for each of the eight operators: `Joiner` returns a value (never an error, never a panic) that
+denotes the specified set, for well-formed operands of every representation -/
+theorem join_refines (op : JoinOp) (a b : Rep) (aN bN : Names) (wa : RepWF a) (wb : RepWF b)
+    (ha : relationAttrs a = some aN) (hb : relationAttrs b = some bN) :
+    ∃ res, joiner op a b = .ok res ∧ den res = Spec.join op (den a) (den b) :=
+  joiner_refines op a b aN bN wa wb ha hb
+
+-- the hypotheses are satisfiable by a non-trivial pair (permuted columns, a sugar heading on the right)
+example : ∃ r1 ps, RepWF (.relation r1) ∧ RepWF (.seq .item ps) ∧ r1.rows.length = 2 ∧ ps.length = 2 :=
+  ⟨⟨["b", "@"], [0, 1], [[.num 1, .num 0], [.num 2, .num 1]]⟩, [(.num 0, .num 5), (.num 1, .num 6)],
+    ⟨by decide, rfl, by intro row h; simp at h; rcases h with rfl | rfl <;> rfl, by simp⟩, trivial, rfl, rfl⟩
+
+/-- the repaired defect: read through the left operand's projector (width 1) the re-sugaring loop of
+`{|@| (0)} <&> {|@item| (5)}` indexes out of range; read through the output heading's projector it yields `[5]` -/
+theorem resugar_left_projector_panics :
+    resugar [0] ["@", "@item"] 0 1 [[.num 0, .num 5]] = .panic "Relation.Join: index out of range" ∧
+    ∃ r, resugar [0, 1] ["@", "@item"] 0 1 [[.num 0, .num 5]] = .ok r ∧
+      enumerate r = [V.mkTup [("@", .num 0), ("@item", .num 5)]] := by
+  refine ⟨rfl, ?_⟩
+  exact ⟨_, rfl, by
+    show enumerate (ofMembers [V.mkTup [("@", .num 0), ("@item", .num 5)]]) = _
+    rw [enumerate_ofMembers _ (by intro x hx; simp at hx; subst hx; exact canonT_mkTup _)]
+    rfl⟩
+
+/-! ### Part 5 — nest, unnest, rank -/
+
+/-- `Nest` (nestWithFunc + Reduce) refines the specification: for a well-formed relation of any representation,
+attributes inside the heading and a target name that does not clash -/
+theorem nest_refines (a : Rep) (relAttrs attrs : Names) (attr : String) (wa : RepWF a)
+    (ha : relationAttrs a = some relAttrs) (hsub : isSubset attrs relAttrs = true)
+    (hclash : (minus relAttrs attrs).contains attr = false) :
+    ∃ res, Impl.nest a relAttrs attrs attr = .ok res ∧ den res = Spec.nest (den a) attrs attr :=
+  Arrai.C04.nest_refines a relAttrs attrs attr wa ha hsub hclash
+
+/-- the ranking loop: after sorting by the key, every entry is given the number of entries with a strictly
+smaller key -/
+theorem rank_refines (es : List Entry) (attr : String) :
+    ∀ e' ∈ rankPass es attr, ∃ e ∈ es, e'.ranker = e.ranker ∧
+      e'.input = (attr, V.num (Int.ofNat (smallerCount es attr e))) :: e.input.filter (fun p => p.1 ≠ attr) :=
+  Arrai.C04.rankPass_spec es attr
+
+/-- ranking loses no entry -/
+theorem rank_complete (es : List Entry) (attr : String) :
+    (rankPass es attr).length = es.length := Arrai.C04.rankPass_length es attr
+
+/-- several rank attributes `(r₁: .k₁, r₂: .k₂, …)`: the passes do not disturb one another — after all of them
+every entry carries, for each `rᵢ`, the number of entries whose `kᵢ` is strictly smaller -/
+theorem rank_refines_partial (es : List Entry) (rs : List String) :
+    (rs.foldl rankPass es).length = es.length ∧
+    ∀ e' ∈ rs.foldl rankPass es, ∃ e ∈ es, e'.ranker = e.ranker ∧
+      e'.input = rankedInput es rs e.ranker e.input :=
+  ⟨foldl_rankPass_length rs es, foldl_rankPass_spec es rs es (fun _ _ => rfl)⟩
+
+/-- stated, not proved in general (the loop-level theorems above and the correspondence run cover it):
+`Rank` on a representation denotes `Spec.rank` -/
+def rank_refines_full : Prop :=
+  ∀ (a : Rep) (relAttrs : Names) (keys : List (String × String)),
+    RepWF a → relationAttrs a = some relAttrs → (enumerate a).Nodup → (keys.map (·.1)).Nodup →
+    (∀ rk ∈ keys, relAttrs.contains rk.2 = true) →
+    ∃ res, Impl.rank a keys = .ok res ∧ den res = Spec.rank (den a) keys
+
+def rankWitness : V :=
+  V.mkSet [V.mkTup [("x", .num 1), ("y", .num 0)], V.mkTup [("x", .num 1), ("y", .num 1)],
+    V.mkTup [("x", .num 2), ("y", .num 1)], V.mkTup [("x", .num 3), ("y", .num 1)]]
+
+/-- the documented example `{|x,y| (1,0), (1,1), (2,1), (3,1)} rank (r: .x)` (ranks 0, 0, 2, 3), and two
+rank attributes at once -/
+theorem rank_refines_witness :
+    (∃ res, Impl.rank (ofV rankWitness) [("r", "x")] = .ok res ∧
+      den res = Spec.rank rankWitness [("r", "x")]) ∧
+    (∃ res, Impl.rank (ofV rankWitness) [("r", "x"), ("s", "y")] = .ok res ∧
+      den res = Spec.rank rankWitness [("r", "x"), ("s", "y")]) := by
+  refine ⟨⟨_, rfl, ?_⟩, ⟨_, rfl, ?_⟩⟩ <;> decide
+
+/-- stated, not proved in general: `Unnest` on a representation whose `attr` holds relations that merge
+with the rest of their row denotes `Spec.unnest` -/
+def unnest_refines_full : Prop :=
+  ∀ (a : Rep) (relAttrs : Names) (attr : String),
+    RepWF a → relationAttrs a = some relAttrs → relAttrs.contains attr = true →
+    (∀ x ∈ enumerate a, ∃ ys, get attr (tupOf x) = some (.set ys) ∧
+      ∀ s ∈ ys, CanonT s ∧ (mergeT (V.mkTup ((tupOf x).filter fun p => p.1 ≠ attr)) s).isSome = true) →
+    ∃ res, Impl.unnest a attr = .ok res ∧ den res = Spec.unnest (den a) attr
+
+def unnestWitness : V :=
+  V.mkSet [V.mkTup [("a", .num 1), ("n", V.mkSet [V.mkTup [("b", .num 2)], V.mkTup [("b", .num 3)]])],
+    V.mkTup [("a", .num 2), ("n", V.mkSet [])]]
+
+/-- `{|a,n| (1, {|b| (2), (3)}), (2, {})} unnest n`, and unnest after the transliterated nest -/
+theorem unnest_refines_witness :
+    (∃ res, Impl.unnestExpr (ofV unnestWitness) "n" = .ok res ∧ den res = Spec.unnest unnestWitness "n") ∧
+    (∃ r res, Impl.nestExpr false (ofV rankWitness) ["y"] "n" = .ok r ∧ Impl.unnestExpr r "n" = .ok res ∧
+      den res = rankWitness) := by
+  refine ⟨⟨_, rfl, ?_⟩, ⟨_, _, rfl, rfl, ?_⟩⟩ <;> decide
+
+/-- stated, not proved in general: `SingleAttrNest` denotes `Spec.singleNest` -/
+def singleNest_refines_full : Prop :=
+  ∀ (a : Rep) (relAttrs : Names) (attr : String),
+    RepWF a → relationAttrs a = some relAttrs → relAttrs.contains attr = true →
+    ∃ res, Impl.singleAttrNest a relAttrs attr = .ok res ∧ den res = Spec.singleNest (den a) attr
+
+/-- `{|x,y| …} nest y` and the inverse form `nest ~|x|n` -/
+theorem singleNest_refines_witness :
+    (∃ res, Impl.singleNestExpr (ofV rankWitness) "y" = .ok res ∧ den res = Spec.singleNest rankWitness "y") ∧
+    (∃ res, Impl.nestExpr true (ofV rankWitness) ["x"] "n" = .ok res ∧ den res = Spec.nest rankWitness ["y"] "n") := by
+  refine ⟨⟨_, rfl, ?_⟩, ⟨_, rfl, ?_⟩⟩ <;> decide
+
+/-- stated, not proved in general: the result of `Joiner` is again a well-formed operand with a heading, so
+`join_refines` chains through nested expressions (the correspondence run exercises nested joins) -/
+def join_result_wf_full : Prop :=
+  ∀ (op : JoinOp) (a b : Rep) (aN bN : Names), RepWF a → RepWF b →
+    relationAttrs a = some aN → relationAttrs b = some bN →
+    ∀ res, joiner op a b = .ok res → RepWF res ∧ ∃ N, relationAttrs res = some N
+
+/-- a chained join with permuted columns, `({|b| (1)} <&> {|a| (2)}) <&> {|a,c| (2,3)}`: the intermediate
+result has heading `[b, a]`, is well-formed, and the final result denotes the specified value -/
+theorem join_chain_witness :
+    ∃ r1 res, joiner .join (ofV (V.mkSet [V.mkTup [("b", .num 1)]])) (ofV (V.mkSet [V.mkTup [("a", .num 2)]]))
+        = .ok (.relation r1) ∧ r1.attrs = ["b", "a"] ∧
+      joiner .join (.relation r1) (ofV (V.mkSet [V.mkTup [("a", .num 2), ("c", .num 3)]])) = .ok res ∧
+      den res = V.mkSet [V.mkTup [("a", .num 2), ("b", .num 1), ("c", .num 3)]] := by
+  refine ⟨_, _, rfl, rfl, rfl, ?_⟩
+  decide
 
 end Arrai.C04.Theorems
